@@ -38,7 +38,7 @@ REQUIRED_EVENTS = {"any": ["hung.shape", "hung.count", "hung.distinct-columns", 
 
 _h = None
 _helpers = None
-BUDGET = 6_000_000
+BUDGET = 1_000_000  # clean tree: < 3 000 steps up to 8x8, < 60 000 at 24x24
 
 
 def setup():
